@@ -878,6 +878,24 @@ pub fn check_main(prop: &str, tier: &str) -> i32 {
             println!("note: the ASan phase could not run ({})", e);
             san.insert("asan_unavailable".into(), json!(e));
         }
+        // ... and a few units under Miri: typed reads of never-initialised memory (e.g. the seal's
+        // key/value) are invisible to ASan
+        if std::env::var_os("LRUSIM_NO_MIRI").is_none() {
+            let m = crate::sanitize::miri_phase(prop, "quick", verif_seed, 12, ncpu.min(12), Duration::from_secs(75));
+            for (class, msg, path) in &m.violations {
+                if confirmed.iter().any(|c| &c.class == class) {
+                    let _ = std::fs::remove_file(path);
+                    continue;
+                }
+                confirmed.push(VRec { property: prop.into(), class: class.clone(), msg: msg.clone(), replay: path.clone(), run_index: 0, steps: 0 });
+            }
+            san.insert("miri_units".into(), json!(m.runs));
+            san.insert("miri_wall_s".into(), json!(m.wall_s));
+            if let Some(e) = &m.error {
+                println!("note: the Miri phase could not run ({})", e);
+                san.insert("miri_unavailable".into(), json!(e));
+            }
+        }
     }
     if thorough && san_props && std::env::var_os("LRUSIM_NO_SANITIZERS").is_none() {
         let asan_units: u64 = match prop {
